@@ -444,13 +444,13 @@ Definition cstep (c : cluster) (a : action) : result cluster :=
       | _, _ => Ok (tick_clock c)
       end
   | Drop i j =>
-      match aget i (c_nodes c) with
-      | Some ni =>
+      match aget i (c_nodes c), aget j (c_nodes c) with
+      | Some ni, Some _ =>
           match out_queue ni j with
           | _ :: rest => Ok (tick_clock (set_node c i (set_out ni (aset j rest (cn_out ni)))))
           | [] => Ok (tick_clock c)
           end
-      | None => Ok (tick_clock c)
+      | _, _ => Ok (tick_clock c)
       end
   | TickFrom i j =>
       match aget j (c_nodes c) with
@@ -541,8 +541,8 @@ Definition quiescent (c : cluster) : bool :=
    j sees RUNNING *)
 Definition view_true_at (c : cluster) (j : Z) (nj : cnode) : bool :=
   forallb (fun isc =>
-    match fst (snd isc) with
-    | Node.IRUNNING =>
+    match adm (cn_ctx nj) (fst isc) with
+    | Some Node.IRUNNING =>
         match aget (fst isc) (c_nodes c) with
         | Some ni => forallb (fun kt => option_eqb tinfo_eqb (rvinfo (cn_ctx nj) (fst kt) (fst isc)) (Some (snd kt)))
                              (cn_truth ni)
@@ -558,8 +558,8 @@ Definition view_true (c : cluster) : bool :=
    Supervisor's RUNNING_STATES nor in STOPPED_STATES: membership is then left open. *)
 Definition running_true_at (c : cluster) (nj : cnode) : bool :=
   forallb (fun isc =>
-    match fst (snd isc) with
-    | Node.IRUNNING =>
+    match adm (cn_ctx nj) (fst isc) with
+    | Some Node.IRUNNING =>
         match aget (fst isc) (c_nodes c) with
         | Some ni =>
             forallb (fun kt =>
